@@ -86,6 +86,8 @@ def randoms(n, s):
     out = []
     for i in range(n):
         cell = CELLS[i % len(CELLS)]
+        if i % 17 == 9:
+            cell = "prism" if (i // 17) % 2 == 0 else "pyramid"
         arity = (i // len(CELLS)) % 3
         cdeg = 2 if (i % 7 == 3 and cell in ("triangle", "interval", "quadrilateral")) else 1
         gdim = None
